@@ -134,6 +134,28 @@ func init() {
 			T("C", func() { vsched.CtrSet(cCancel, 1); cancel() })
 		},
 	})
+	eng.Register(&eng.Scenario{
+		Name: "bcast-cancel2", Props: []string{"C03"}, MustFinish: true, ObsNames: stdObs,
+		Doc:   "Broadcast: a cancellable waiter W1 (x>=3, never satisfied) and a live waiter W2 (x>=2), a bumper bumping twice and a canceller: a cancellation racing with a broadcast while W2 re-parks on a fresh channel must not make W2 miss the second broadcast",
+		Quick: eng.Bounds{PB: 2}, Thorough: eng.Bounds{PB: 3},
+		Body: func() {
+			var b broadcast.Broadcast
+			ctx, cancel := context.WithCancel(bg)
+			vsched.OnQuiescent(func() bool {
+				// W2 (live context) may not be parked once x>=2; W1 is parked only while uncancelled
+				n := vsched.CountParked("Broadcast.Wait")
+				x := vsched.Ctr(cX)
+				if n > 0 && x >= 2 && (vsched.Ctr(cCancel) != 0 || n > 1) {
+					fail("C03.missed-broadcast", "%d waiter(s) parked in Wait at quiescence with x=%d (W2 waits for x>=2; W1 was cancelled=%d)", n, x, vsched.Ctr(cCancel))
+				}
+				return false
+			})
+			T("W1", func() { waiter(&b, ctx, 3, 0, nil) })
+			T("W2", func() { waiter(&b, bg, 2, 0, nil) })
+			T("B", func() { bump(&b, 0); bump(&b, 0) })
+			T("C", func() { vsched.CtrSet(cCancel, 1); cancel() })
+		},
+	})
 	errE := errors.New("pred-error")
 	eng.Register(&eng.Scenario{
 		Name: "bcast-prederr", Props: []string{"C03"}, MustFinish: true, ObsNames: stdObs,
